@@ -113,6 +113,8 @@ def r_transformable(rule, types=("Interval", "Grad"), root=None):
         t = A.ftxt(fn["body"])
         if "letout=%s.transform_point(&Point3::new(%s,%s,%s));" % (params[3], params[0], params[1], params[2]) in t and t.endswith("(out.x,out.y,out.z)}"):
             rule.ok("f32: transform_point(Point3(x, y, z)) -> (x, y, z)", file=SHAPE, line=fn["ln"])
+        elif _transform_by_meaning(rule, fn, "f32", "transform|f32"):
+            pass  # written out by hand: compared with the homogeneous transform entry by entry
         else:
             rule.bad("transform|f32", "Transformable for f32 must be mat.transform_point(&Point3::new(x, y, z)) returned as (out.x, out.y, out.z)", A.where(fn))
 
